@@ -9,7 +9,8 @@
 //!  * whole runs through `Tracer::run` with the production sockets (needs CAP_NET_RAW; counted as skipped without it):
 //!    ICMP, UDP and TCP traces of 127.0.0.1 and ::1 with a round limit n publish exactly n rounds, return `Ok`, show
 //!    no error and find the target at the first hop — quiet, and with a handled signal delivered to the tracing
-//!    thread every few milliseconds (`c09-platform-run`).
+//!    thread every few milliseconds, and with the source address taken from the loopback interface by name
+//!    (`c09-platform-run`).
 //!
 //! No model is involved (one `conc noop` request keeps the stream non-empty); real time, no virtual clock.
 use crate::util::{guarded, Rng, Run};
@@ -144,8 +145,8 @@ fn readiness(run: &mut Run) {
     }
 }
 
-fn trace(run: &mut Run, proto: Protocol, target: IpAddr, signals: bool, rounds: usize) {
-    let ctx = format!("Tracer::run, production sockets, {proto:?} trace of {target}, {rounds} rounds, {}", if signals { "a handled signal every 3ms to the tracing thread" } else { "quiet" });
+fn trace(run: &mut Run, proto: Protocol, target: IpAddr, signals: bool, rounds: usize, interface: Option<&str>) {
+    let ctx = format!("Tracer::run, production sockets, {proto:?} trace of {target}{}, {rounds} rounds, {}", interface.map_or(String::new(), |i| format!(" from interface {i}")), if signals { "a handled signal every 3ms to the tracing thread" } else { "quiet" });
     let pd = match proto {
         Protocol::Icmp => PortDirection::None,
         // a port nobody listens on: the kernel answers for the target (port unreachable / connection refused)
@@ -160,6 +161,7 @@ fn trace(run: &mut Run, proto: Protocol, target: IpAddr, signals: bool, rounds: 
         .grace_duration(Duration::from_millis(10))
         .read_timeout(Duration::from_millis(5))
         .max_ttl(4)
+        .interface(interface)
         .build();
     let tracer = match built {
         Ok(t) => t,
@@ -176,7 +178,7 @@ fn trace(run: &mut Run, proto: Protocol, target: IpAddr, signals: bool, rounds: 
         Ok(Err(e)) => {
             let s = e.to_string();
             // no privileges / no such address family here: not a verdict on the code
-            if !signals && (s.contains("Operation not permitted") || s.contains("Permission denied") || s.contains("not supported") || s.contains("Cannot assign") || s.contains("unreachable") || s.contains("Address family") || s.contains("No such device")) {
+            if !signals && (s.contains("Operation not permitted") || s.contains("Permission denied") || s.contains("not supported") || s.contains("Cannot assign") || s.contains("unreachable") || s.contains("Address family") || s.contains("No such device") || s.contains("nknown interface")) {
                 run.count("platform:run-unavailable");
                 return;
             }
@@ -210,9 +212,11 @@ pub fn run(_rng: &mut Rng, thorough: bool, _corpus: &[String]) -> Run {
             // the quiet run decides whether this kind of trace is possible here at all
             let before = run.oracle_failures.len();
             let unavailable_before = run_count(&run, "platform:run-unavailable");
-            trace(&mut run, proto, target, false, rounds);
+            trace(&mut run, proto, target, false, rounds, None);
             if run.oracle_failures.len() == before && run_count(&run, "platform:run-unavailable") == unavailable_before {
-                trace(&mut run, proto, target, true, rounds);
+                trace(&mut run, proto, target, true, rounds, None);
+                // the source address taken from a named interface (the loopback interface carries both families)
+                trace(&mut run, proto, target, false, rounds, Some("lo"));
             }
         }
     }
